@@ -34,7 +34,7 @@ Match ==
 
 TEof == /\ More /\ Ln.e = "eof" /\ fin /\ Consume /\ UNCHANGED <<pid, st, pend, fin>>
 
-NextEq == \/ (TSilentFire /\ UNCHANGED <<run, rp>>)
+NextEq == \/ ((TSilentFire \/ TSilentComplete) /\ UNCHANGED <<run, rp>>)
           \/ ((TReset \/ (TSkip /\ Ln.e # "eof") \/ TIssue \/ THandle \/ TAnswer \/ TRet \/ TAdv \/ TEnd \/ TEof) /\ Match)
 SpecEq == InitEq /\ [][NextEq]_varsEq
 =============================================================================
